@@ -113,8 +113,10 @@ def _eq_ordered(a, b):
 _NO_PROJECTION = ('order', 'company', 'lamp')
 
 
-def _dump_ok(mi, f, x):
-    if mi < len(values.MODELS):
+def _dump_ok(mi, f, x, f2=None, x2=None):
+    if f2 is not None:
+        v = values.value2(mi, f, x, f2, x2)
+    elif mi < len(values.MODELS):
         v = values.value(mi, f, x)
     else:
         fs = _MODELS[mi][3]
@@ -182,7 +184,21 @@ def dump_reach(f: int, x: int) -> bool:
     return not (r and f == 1 and x == 4)
 
 
+def dump_ok2(x1: int, f2: int, x2: int) -> bool:
+    """
+    pre: 0 <= x1 < 70 and 0 <= f2 < 10 and 0 <= x2 < 70
+    post: __return__
+    """
+    sl = slice_no(0)
+    r = _dump_ok(sl // 16, sl % 16, x1, f2, x2)
+    return True if r is None else r
+
+
 CONDITIONS = [
+    {'fn': 'dump_ok2', 'slices': values.combine_slices(), 'quick': None,
+     'thorough': 600,
+     'bound': 'TWO factors at a time for the doc, styled and opt models (one '
+              'slice per model and first factor)'},
     {'fn': 'dump_ok', 'slices': list(range(len(_MODELS))), 'quick': 110,
      'thorough': 300,
      'bound': 'one slice per class model: every alternative of every factor; '
